@@ -301,9 +301,9 @@ func genEnv(r *core.Rand) env {
 func hx(s string) string { return core.HexS(s) }
 
 func (P) Gen(r *core.Rand, tier string, emit func([]string)) {
-	nStack, nLib, nE2E := 260, 25, 12
+	nStack, nLib, nE2E := 700, 40, 40
 	if tier == "thorough" {
-		nStack, nLib, nE2E = 12000, 600, 150
+		nStack, nLib, nE2E = 40000, 2000, 600
 	}
 	for i := 0; i < nStack; i++ {
 		e := genEnv(r)
